@@ -6,6 +6,13 @@ import Marwood.Lemmas.NumRatio
 namespace Marwood.Arith
 open Marwood Marwood.NumSpec
 
+/-- the part of the representation invariant the value lemmas need: positive denominators -/
+def DenPos : Num → Prop
+  | .rat _ d => 0 < d
+  | _ => True
+
+theorem denpos_rat {n d : Int} (h : DenPos (.rat n d)) : 0 < d := h
+
 theorem wf_rat_pos {n d : Int} (h : (Num.rat n d).WF = true) : 0 < d := by
   simp only [Num.WF, Bool.and_eq_true, decide_eq_true_eq] at h
   omega
@@ -13,6 +20,11 @@ theorem wf_rat_pos {n d : Int} (h : (Num.rat n d).WF = true) : 0 < d := by
 theorem wf_rat_i32 {n d : Int} (h : (Num.rat n d).WF = true) : inI32 n = true ∧ inI32 d = true := by
   simp only [Num.WF, Bool.and_eq_true, decide_eq_true_eq] at h
   exact ⟨h.1.1.2, h.1.2⟩
+
+theorem DenPos.of_wf {a : Num} (h : a.WF = true) : DenPos a := by
+  cases a with
+  | rat n d => exact wf_rat_pos h
+  | _ => trivial
 
 @[simp] theorem val_fix (n : Int) : val (.fix n) = some (n : Rat) := rfl
 @[simp] theorem val_big (n : Int) : val (.big n) = some (n : Rat) := rfl
@@ -39,7 +51,7 @@ theorem ratArm_val {q : Option Ratio} {f : Num} {N D : Int} (hf : isExact f = fa
 
 theorem qne {d : Int} (h : 0 < d) : (d : Rat) ≠ 0 := by exact_mod_cast h.ne'
 
-theorem add_exact (a b : Num) (ha : a.WF = true) (hb : b.WF = true)
+theorem add_exact (a b : Num) (ha : DenPos a) (hb : DenPos b)
     (h : isExact (add a b) = true) :
     ∃ x y, val a = some x ∧ val b = some y ∧ val (add a b) = some (x + y) := by
   cases a <;> cases b
@@ -53,7 +65,7 @@ theorem add_exact (a b : Num) (ha : a.WF = true) (hb : b.WF = true)
   case big.fix l r => exact ⟨l, r, rfl, rfl, by simp [add]⟩
   case big.big l r => exact ⟨l, r, rfl, rfl, by simp [add]⟩
   case fix.rat l n d =>
-    have hd := wf_rat_pos hb
+    have hd := denpos_rat hb
     have hq := qne hd
     refine ⟨l, (n : Rat) / d, rfl, rfl, ?_⟩
     simp only [add] at h ⊢
@@ -63,7 +75,7 @@ theorem add_exact (a b : Num) (ha : a.WF = true) (hb : b.WF = true)
       congr 1; push_cast; field_simp
     · rw [if_neg hi] at h; simp at h
   case rat.fix n d r =>
-    have hd := wf_rat_pos ha
+    have hd := denpos_rat ha
     have hq := qne hd
     refine ⟨(n : Rat) / d, r, rfl, rfl, ?_⟩
     simp only [add] at h ⊢
@@ -73,8 +85,8 @@ theorem add_exact (a b : Num) (ha : a.WF = true) (hb : b.WF = true)
       congr 1; push_cast; field_simp; ring
     · rw [if_neg hi] at h; simp at h
   case rat.rat n d n' d' =>
-    have hd := wf_rat_pos ha
-    have hd' := wf_rat_pos hb
+    have hd := denpos_rat ha
+    have hd' := denpos_rat hb
     have hq := qne hd
     have hq' := qne hd'
     refine ⟨(n : Rat) / d, (n' : Rat) / d', rfl, rfl, ?_⟩
@@ -94,7 +106,7 @@ theorem add_exact (a b : Num) (ha : a.WF = true) (hb : b.WF = true)
     · rw [if_pos hi] at h ⊢; simp only [beq_iff_eq] at hi; subst hi; simp; ring
     · rw [if_neg hi] at h; simp at h
   all_goals (simp [add] at h)
-theorem sub_exact (a b : Num) (ha : a.WF = true) (hb : b.WF = true)
+theorem sub_exact (a b : Num) (ha : DenPos a) (hb : DenPos b)
     (h : isExact (sub a b) = true) :
     ∃ x y, val a = some x ∧ val b = some y ∧ val (sub a b) = some (x - y) := by
   cases a <;> cases b
@@ -108,7 +120,7 @@ theorem sub_exact (a b : Num) (ha : a.WF = true) (hb : b.WF = true)
   case big.fix l r => exact ⟨l, r, rfl, rfl, by simp [sub]⟩
   case big.big l r => exact ⟨l, r, rfl, rfl, by simp [sub]⟩
   case fix.rat l n d =>
-    have hd := wf_rat_pos hb
+    have hd := denpos_rat hb
     have hq := qne hd
     refine ⟨l, (n : Rat) / d, rfl, rfl, ?_⟩
     simp only [sub] at h ⊢
@@ -118,7 +130,7 @@ theorem sub_exact (a b : Num) (ha : a.WF = true) (hb : b.WF = true)
       congr 1; push_cast; field_simp
     · rw [if_neg hi] at h; simp at h
   case rat.fix n d r =>
-    have hd := wf_rat_pos ha
+    have hd := denpos_rat ha
     have hq := qne hd
     refine ⟨(n : Rat) / d, r, rfl, rfl, ?_⟩
     simp only [sub] at h ⊢
@@ -128,8 +140,8 @@ theorem sub_exact (a b : Num) (ha : a.WF = true) (hb : b.WF = true)
       congr 1; push_cast; field_simp; try ring
     · rw [if_neg hi] at h; simp at h
   case rat.rat n d n' d' =>
-    have hd := wf_rat_pos ha
-    have hd' := wf_rat_pos hb
+    have hd := denpos_rat ha
+    have hd' := denpos_rat hb
     have hq := qne hd
     have hq' := qne hd'
     refine ⟨(n : Rat) / d, (n' : Rat) / d', rfl, rfl, ?_⟩
@@ -150,7 +162,7 @@ theorem sub_exact (a b : Num) (ha : a.WF = true) (hb : b.WF = true)
     · rw [if_neg hi] at h; simp at h
   all_goals (simp [sub] at h)
 
-theorem mul_exact (a b : Num) (ha : a.WF = true) (hb : b.WF = true)
+theorem mul_exact (a b : Num) (ha : DenPos a) (hb : DenPos b)
     (h : isExact (mul a b) = true) :
     ∃ x y, val a = some x ∧ val b = some y ∧ val (mul a b) = some (x * y) := by
   cases a <;> cases b
@@ -164,7 +176,7 @@ theorem mul_exact (a b : Num) (ha : a.WF = true) (hb : b.WF = true)
   case big.fix l r => exact ⟨l, r, rfl, rfl, by simp [mul]⟩
   case big.big l r => exact ⟨l, r, rfl, rfl, by simp [mul]⟩
   case fix.rat l n d =>
-    have hd := wf_rat_pos hb
+    have hd := denpos_rat hb
     have hq := qne hd
     refine ⟨l, (n : Rat) / d, rfl, rfl, ?_⟩
     simp only [mul] at h ⊢
@@ -174,7 +186,7 @@ theorem mul_exact (a b : Num) (ha : a.WF = true) (hb : b.WF = true)
       congr 1; push_cast; field_simp
     · rw [if_neg hi] at h; simp at h
   case rat.fix n d r =>
-    have hd := wf_rat_pos ha
+    have hd := denpos_rat ha
     have hq := qne hd
     refine ⟨(n : Rat) / d, r, rfl, rfl, ?_⟩
     simp only [mul] at h ⊢
@@ -184,8 +196,8 @@ theorem mul_exact (a b : Num) (ha : a.WF = true) (hb : b.WF = true)
       congr 1; push_cast; field_simp; try ring
     · rw [if_neg hi] at h; simp at h
   case rat.rat n d n' d' =>
-    have hd := wf_rat_pos ha
-    have hd' := wf_rat_pos hb
+    have hd := denpos_rat ha
+    have hd' := denpos_rat hb
     have hq := qne hd
     have hq' := qne hd'
     refine ⟨(n : Rat) / d, (n' : Rat) / d', rfl, rfl, ?_⟩
@@ -236,13 +248,13 @@ theorem ratioOfI32_exact {l r : Int} {x : Num} (h : ratioOfI32 l r = .ok x) (he 
         rw [h2]; simp
       · cases h; simp at he
 
-theorem div_exact (a b : Num) (ha : a.WF = true) (hb : b.WF = true) {r : Num}
+theorem div_exact (a b : Num) (ha : DenPos a) (hb : DenPos b) {r : Num}
     (h : div a b = .ok r) (he : isExact r = true) :
     ∃ x y, val a = some x ∧ val b = some y ∧ y ≠ 0 ∧ val r = some (x / y) := by
   cases a <;> cases b
   case rat.rat n d n' d' =>
-    have hd := wf_rat_pos ha
-    have hd' := wf_rat_pos hb
+    have hd := denpos_rat ha
+    have hd' := denpos_rat hb
     have hq := qne hd
     have hq' := qne hd'
     simp only [div, ratOrFlo, Outcome.ok.injEq] at h
@@ -257,7 +269,7 @@ theorem div_exact (a b : Num) (ha : a.WF = true) (hb : b.WF = true) {r : Num}
       (fun q hr => (checkedDiv_crs (n, d) (n', d') hd hd' hr).2) he]
     congr 1; push_cast; field_simp
   case rat.fix n d r0 =>
-    have hd := wf_rat_pos ha
+    have hd := denpos_rat ha
     have hq := qne hd
     simp only [div] at h
     cases hi : asI32 (Num.fix r0) with
@@ -276,7 +288,7 @@ theorem div_exact (a b : Num) (ha : a.WF = true) (hb : b.WF = true) {r : Num}
         (fun q hr => (checkedDiv_crs (n, d) (rr, 1) hd (by simp) hr).2) he]
       congr 1; push_cast; field_simp
   case rat.big n d r0 =>
-    have hd := wf_rat_pos ha
+    have hd := denpos_rat ha
     have hq := qne hd
     simp only [div] at h
     cases hi : asI32 (Num.big r0) with
@@ -295,7 +307,7 @@ theorem div_exact (a b : Num) (ha : a.WF = true) (hb : b.WF = true) {r : Num}
         (fun q hr => (checkedDiv_crs (n, d) (rr, 1) hd (by simp) hr).2) he]
       congr 1; push_cast; field_simp
   case fix.rat l0 n d =>
-    have hd := wf_rat_pos hb
+    have hd := denpos_rat hb
     have hq := qne hd
     simp only [div] at h
     cases hi : asI32 (Num.fix l0) with
@@ -314,7 +326,7 @@ theorem div_exact (a b : Num) (ha : a.WF = true) (hb : b.WF = true) {r : Num}
         (fun q hr => (checkedDiv_crs (ll, 1) (n, d) (by simp) hd hr).2) he]
       congr 1; push_cast; field_simp
   case big.rat l0 n d =>
-    have hd := wf_rat_pos hb
+    have hd := denpos_rat hb
     have hq := qne hd
     simp only [div] at h
     cases hi : asI32 (Num.big l0) with
